@@ -247,6 +247,8 @@ def best_alignment_contract(name, soft):
                                            "not isnone(set_unitary_alignements[where_pos()[hitk(a, j)]]._n_tuple[a][1]) and "
                                            "some(set_unitary_alignements[where_pos()[hitk(a, j)]]._n_tuple[a][1]) == unitAt(a, j)))"),
                            ("before", ret, "assert forall(t, 0, NSEL, exists(a, 0, nA(), chosen_alignments[t][a] < cntAt(a)))"),
+                           ("before", ret, "assert forall(t, 0, NSEL, exists(a, 0, nA(), "
+                                           "not isnone(set_unitary_alignements[t]._n_tuple[a][1])))"),
                            ("before", ret, "assert forall(k, 0, KK, implies(XV[k] == 1, 0 <= where_pos()[k] and "
                                            "where_pos()[k] < NSEL and SEL[where_pos()[k]] == k))"),
                            ] + once_hints,
